@@ -292,14 +292,18 @@ class Dispatcher:
 
         # send updates for all subscribed values.
         # note: The initial poll already happend before the server is active
+        # the update lock of the module makes sure that a concurrent update (announced
+        # from an other thread) can not overtake the snapshot taken here
         for modulename, pname in modules:
             moduleobj = self.secnode.modules.get(modulename, None)
             if pname:
-                conn.send_reply(make_update(modulename, moduleobj.parameters[pname]))
+                with moduleobj.updateLock:
+                    conn.send_reply(make_update(modulename, moduleobj.parameters[pname]))
                 continue
             for pobj in moduleobj.accessibles.values():
                 if isinstance(pobj, Parameter) and pobj.export:
-                    conn.send_reply(make_update(modulename, pobj))
+                    with moduleobj.updateLock:
+                        conn.send_reply(make_update(modulename, pobj))
         return (ENABLEEVENTSREPLY, specifier, None) if specifier else (ENABLEEVENTSREPLY, None, None)
 
     def handle_deactivate(self, conn, specifier, data):
